@@ -43,7 +43,14 @@ ObsEuclid(x, m) == EuclidFrom(m, x % m)                                 \* count
 \* trace-level predicates used by T_Leak
 RECURSIVE CommonPrefix(_, _, _)
 CommonPrefix(a, b, i) == IF i > Len(a) \/ i > Len(b) \/ a[i] # b[i] THEN i - 1 ELSE CommonPrefix(a, b, i + 1)
+RECURSIVE CommonSuffix(_, _, _)
+CommonSuffix(a, b, k) ==      \* number of equal items counted from the ends
+  IF k >= Len(a) \/ k >= Len(b) \/ a[Len(a) - k] # b[Len(b) - k] THEN k ELSE CommonSuffix(a, b, k + 1)
+\* equal except for one window of at most `slack` items (the verdict branch): what precedes the
+\* window and what follows it (the caller's instructions after the return) must coincide
 EqualUpToVerdict(a, b, slack) ==
   LET cp == CommonPrefix(a, b, 1)
-  IN cp >= Len(a) - slack /\ cp >= Len(b) - slack
+      cs == CommonSuffix(a, b, 0)
+      longer == IF Len(a) > Len(b) THEN Len(a) ELSE Len(b)
+  IN cp + cs >= longer - slack
 =============================================================================
